@@ -89,6 +89,51 @@ func init() {
 			},
 		},
 		propCheck{
+			ID: "C13", Level: "exploration",
+			Rule: "one evaluation = one simulated DML history: a generated schema (single/composite/string/no primary key, unique, prefix and secondary keys, CHECKs, defaults, NOT NULL, stored/virtual generated column, _bin and _ai_ci strings), 1-3 autocommit sessions interleaved by the tape, 4-24 statements (multi-row INSERT / INSERT IGNORE / REPLACE / ON DUPLICATE KEY UPDATE / UPDATE and DELETE with WHERE, ORDER BY pk, LIMIT), natural failures planted at drawn rows and an injected storage error on ~1/7 of the statements; after every statement the error kind, affected / matched / changed counts and the full table contents must equal the reference table model; non-trivial = >= 2 sessions or a fault fired; distinct = distinct hash of the (statement kind, outcome) sequence",
+			Real: []string{"parser, planbuilder, analyzer, rowexec insert/update/delete iterators", "memory table editor, edit accumulators, session table data"},
+			Stub: []string{"session scheduling at statement granularity", "storage error source (verifhook.Fault)"},
+			Assumptions: []string{"the reference model (sim/sqlsim/model.go) is the oracle: MySQL-documented semantics on a deliberately narrow fragment; statements whose outcome depends on an unspecified processing order accept every legitimate outcome",
+				"AUTO_INCREMENT is excluded (C20)", "REPLACE hitting more than one row: contents compared, count not (engine reports 1+1, MySQL 1+n)"},
+			Subs: []subCheck{
+				{ID: "C13", World: "sqlsim", Quick: 12000, Thorough: 600000, QuickCap: 80, ThoroughCap: 1500, GC: "100",
+					Probes: []string{"edit-error", "natural-failure:duplicate-key", "natural-failure:check", "order-dependent-statement"}},
+			},
+		},
+		propCheck{
+			ID: "C14", Level: "exploration",
+			Rule: "one evaluation = one simulated DML history as in C13 with schemas biased to composite and string primary keys, unique keys over utf8mb4_0900_ai_ci columns, prefix unique keys and NULLs in unique columns, values chosen to collide under naive encodings ('1','23' vs '12','3'; 'ab' vs 'AB'); after every statement (a) no two rows of the observed table are equal on a primary or unique key under the harness's own collation/prefix equality and (b) a statement is rejected as duplicate iff the reference model finds a duplicate; includes failure-then-continue histories (injected errors, rejected statements) that would expose accumulator leakage; non-trivial = >= 2 sessions or a fault fired; distinct = distinct hash of the (statement kind, outcome) sequence",
+			Real: []string{"memory table editor key checks (Insert, checkUniqueConstraints, GetByCols, columnsMatch, getRowKey)", "rowexec insert (IGNORE / REPLACE / ON DUPLICATE KEY UPDATE)"},
+			Stub: []string{"session scheduling at statement granularity", "storage error source (verifhook.Fault)"},
+			Assumptions: []string{"collation equality is decided by the harness on an alphabet where case folding is unarguable ([a-cA-C0-9])"},
+			Subs: []subCheck{
+				{ID: "C14", World: "sqlsim", Quick: 12000, Thorough: 600000, QuickCap: 80, ThoroughCap: 1500, GC: "100",
+					Probes: []string{"edit-error", "natural-failure:duplicate-key"}},
+			},
+		},
+		propCheck{
+			ID: "C16", Level: "exploration",
+			Rule: "one evaluation = one simulated DML/DDL history (INSERT / REPLACE / UPDATE / DELETE, CREATE INDEX on existing data, DROP INDEX, TRUNCATE, injected storage errors and rejected statements in between, 1-3 sessions); after the steps, for every index: equality lookups on present and absent keys, a range, IS NULL and a two-column lookup must return exactly the reference model's rows satisfying the predicate; EXPLAIN is sampled to count how often the index path was really used; non-trivial = >= 2 sessions or a fault fired; distinct = distinct hash of the (statement kind, outcome) sequence",
+			Real: []string{"memory index storage maintenance (addRowToIndexes, deleteRowFromIndexes, sortSecondaryIndexes, createIndex)", "analyzer index selection, IndexedTableAccess"},
+			Stub: []string{"session scheduling at statement granularity", "storage error source (verifhook.Fault)"},
+			Assumptions: []string{"the expected rows come from the reference model filtered by the harness's own predicate evaluation"},
+			Subs: []subCheck{
+				{ID: "C16", World: "sqlsim", Quick: 6000, Thorough: 300000, QuickCap: 80, ThoroughCap: 1500, GC: "100",
+					Probes: []string{"index-path-used", "index-created-on-existing-data", "edit-error"}},
+			},
+		},
+		propCheck{
+			ID: "C19", Level: "exploration",
+			Rule: "one evaluation = one simulated DML history over schemas with CHECK constraints, NOT NULL columns, constant defaults and a stored or virtual generated column; after every statement the harness evaluates on the observed rows: no CHECK is FALSE, no NULL in a NOT NULL column, every generated column equals its expression, and table contents equal the reference model (defaults applied for omitted columns); injected storage errors and rejected statements in between; non-trivial = >= 2 sessions or a fault fired; distinct = distinct hash of the (statement kind, outcome) sequence",
+			Real: []string{"planbuilder check loading, insert/update check evaluation, default and generated column projection", "memory table editor"},
+			Stub: []string{"session scheduling at statement granularity", "storage error source (verifhook.Fault)"},
+			Assumptions: []string{"CHECK / generated expressions are limited to col op const, colA op colB and col + 1"},
+			Subs: []subCheck{
+				{ID: "C19", World: "sqlsim", Quick: 12000, Thorough: 600000, QuickCap: 80, ThoroughCap: 1500, GC: "100",
+					Probes: []string{"edit-error", "natural-failure:check", "natural-failure:not-null"}},
+			},
+		},
+		propCheck{
 			ID: "C45", Level: "exploration",
 			Rule: "one evaluation = one simulated run: 2-4 tasks redact generated statements and single lexemes through one shared Mapping, the scheduler interleaving them at the RUnlock->Lock upgrade window; non-trivial = the upgrade window actually parked a goroutine; distinct = distinct hash of the event-kind sequence",
 			Real: []string{"sqlredact.Mapping", "sqlredact.RedactSQLForTraceInto", "vitess tokenizer and parser"},
